@@ -5,8 +5,14 @@ import UgoVerif.Props.C13
 import UgoVerif.Props.C20
 import UgoVerif.Props.C01
 import UgoVerif.Props.C16
+import UgoVerif.Props.C02
+import UgoVerif.Props.C03
 import UgoVerif.Props.C11
 import UgoVerif.Props.C09
 import UgoVerif.Props.C12
 import UgoVerif.Props.C14
 import UgoVerif.Props.C05
+import UgoVerif.Props.C19
+import UgoVerif.Props.C04
+import UgoVerif.Props.C18
+import UgoVerif.Props.C10
